@@ -13,6 +13,7 @@ import (
 	"github.com/boz/kcache"
 	"github.com/boz/kcache/types/pod"
 	corev1 "k8s.io/api/core/v1"
+	metav1 "k8s.io/apimachinery/pkg/apis/meta/v1"
 
 	"verifharness/kit"
 )
@@ -843,6 +844,162 @@ func init() {
 		for i := 0; i < tierPick(tier, 20, 1000); i++ {
 			cases = append(cases, e11ResumeCase(seed, i))
 		}
+		for i := 0; i < tierPick(tier, 40, 1200); i++ {
+			cases = append(cases, e11PartialBatchCase(seed, i))
+		}
 		return cases
 	})
+}
+
+// e11PartialBatchCase: a filtered subscription whose consumer never reads holds
+// H (< buffer) events when a Refilter produces a batch of T events of which only
+// a part fits.  The stalled consumer loses only what is beyond its buffer: it
+// ends up with min(H+T, EventBufsiz) events - the H earlier ones in order, then
+// distinct events of the batch (the order inside one batch is free, C02) - and a
+// reading sibling with the same filters gets all H+T when the batch fits its
+// (emptied) buffer.
+func e11PartialBatchCase(seed uint64, n int) Case {
+	rng0 := kit.NewRng(kit.Mix(seed, 0xE11BA7C4+uint64(n)))
+	H := rng0.Intn(kcache.EventBufsiz)
+	B := 1 + rng0.Intn(kcache.EventBufsiz+50)
+	switch n % 4 {
+	case 1:
+		// the batch alone would fit, together with what is held it does not
+		H = kcache.EventBufsiz/2 + rng0.Intn(kcache.EventBufsiz/2)
+		B = kcache.EventBufsiz - H + 1 + rng0.Intn(H)
+	case 2:
+		H = kcache.EventBufsiz - 1 - rng0.Intn(3)
+	}
+	d := e11desc{"partial-batch", H*1000 + B, 0, seed, ""}
+	id := fmt.Sprintf("E11/partial-batch/H%d/B%d/%d/%d", H, B, seed, n)
+	return Case{ID: id, Desc: d, Bubble: true, Run: func(r *Res) {
+		rng := rng0
+		core := kit.NewCore(&kit.Plan{Seed: rng.U64(), PYield: 100, PSleep: 20, MaxSleep: 50 * time.Microsecond})
+		g := newRootRig(core, nil)
+		g.root.MakeReady()
+		t := newTree(g.root.Publisher())
+		ly := kit.TLabels(map[string]string{"l": "y"})
+		lx := kit.TLabels(map[string]string{"l": "x"})
+		st, err1 := t.addChild(t.root, "subwf", ly, false)
+		hl, err2 := t.addChild(t.root, "subwf", ly, true)
+		if err1 != nil || err2 != nil {
+			r.V("C10", "tree-build-error", "%v %v", err1, err2)
+			return
+		}
+		st.stalled = true
+		g.barrier()
+		rv := 0
+		next := func() string { rv++; return strconv.Itoa(rv) }
+		npub := 0
+		pub := func(typ kcache.EventType, o metav1.Object) bool {
+			// at most 25 events in flight: the filtered subscriptions' own loops are
+			// slowed by the injected delays and read from a parent buffer of their own
+			if npub++; npub%25 == 0 {
+				g.barrier()
+			}
+			var err error
+			if !within(func() { _, err = g.apply(typ, o) }) {
+				r.V("C10", "producer-blocked", "publishing did not complete within %v of virtual time while a consumer was stalled\n%s", virtBound, kit.CensusText(kit.Census(), 10))
+				return false
+			}
+			if err != nil {
+				r.V("C10", "publish-error", "%v", err)
+				return false
+			}
+			return true
+		}
+		want := map[string]evrec{} // the batch: key -> event
+		for i := 0; i < B; i++ {
+			o := kit.Pod("n0", fmt.Sprintf("o%03d", i), next(), map[string]string{"l": "x"})
+			if !pub(kcache.EventTypeCreate, o) {
+				return
+			}
+			want[kit.Key(o)] = evrec{Type: kcache.EventTypeCreate, Key: kit.Key(o), RV: o.GetResourceVersion()}
+		}
+		var held []evrec
+		for i := 0; i < H; i++ {
+			o := kit.Pod("n1", "y", next(), map[string]string{"l": "y"})
+			typ := kcache.EventTypeUpdate
+			if i == 0 {
+				typ = kcache.EventTypeCreate
+			}
+			if !pub(typ, o) {
+				return
+			}
+			held = append(held, evrec{Type: typ, Key: kit.Key(o), RV: o.GetResourceVersion()})
+		}
+		if H > 0 {
+			want["n1/y"] = evrec{Type: kcache.EventTypeDelete, Key: "n1/y", RV: held[len(held)-1].RV}
+		}
+		T := len(want)
+		g.barrier()
+		for _, nd := range []*node{st, hl} {
+			var rerr error
+			if !within(func() { rerr = nd.refilt(lx) }) {
+				r.V("C10", "refilter-blocked-by-stalled-consumer", "Refilter on %s (holding %d unread events, batch of %d) did not return within %v", nd, H, T, virtBound)
+				return
+			}
+			if rerr != nil {
+				r.V("C10", "refilter-error", "%v", rerr)
+				return
+			}
+		}
+		g.barrier()
+		judge := func(name string, got []evrec, min int) {
+			for i := 0; i < H && i < len(got); i++ {
+				if !sameEvent(got[i], held[i]) {
+					r.V("C10", "stalled-stream-not-subsequence", "%s: event #%d is %s %s@%s, published was %s %s@%s (H=%d B=%d holds %d)", name, i, got[i].Type, got[i].Key, got[i].RV, held[i].Type, held[i].Key, held[i].RV, H, B, len(got))
+					return
+				}
+			}
+			seen := map[string]bool{}
+			for i := H; i < len(got); i++ {
+				w, ok := want[got[i].Key]
+				if !ok || seen[got[i].Key] || !sameEvent(got[i], w) {
+					r.V("C10", "stalled-stream-not-subsequence", "%s: event #%d (%s %s@%s) is not an event of the Refilter batch, or a repeated one (expected for that key: %v %s@%s, present %v)", name, i, got[i].Type, got[i].Key, got[i].RV, w.Type, w.Key, w.RV, ok)
+					return
+				}
+				seen[got[i].Key] = true
+			}
+			if len(got) < min {
+				r.V("C10", "stalled-lost-too-much", "%s: %d events were held unread, a Refilter then produced a batch of %d; it holds %d afterwards (< min(%d, buffer %d)): events that had room in the buffer were lost", name, H, T, len(got), H+T, kcache.EventBufsiz)
+			}
+		}
+		min := H + T
+		if min > kcache.EventBufsiz {
+			min = kcache.EventBufsiz
+		}
+		var got []evrec
+		for _, e := range drainNow(st.events) {
+			got = append(got, evrec{Type: e.Type(), Key: kit.Key(e.Resource()), RV: e.Resource().GetResourceVersion()})
+		}
+		judge(st.String()+" (never read)", got, min)
+		r.Max("stalled-held", int64(len(got)))
+		r.Add("partial-batch-checks", 1)
+		if H+T > kcache.EventBufsiz && H < kcache.EventBufsiz {
+			r.Add("batches-that-partly-fit", 1)
+		}
+		hg := hl.mir.events()
+		// (the reader had emptied its buffer before the Refilter: a batch up to the
+		// buffer size fits whole; how much of a larger burst a concurrent reader
+		// catches is a matter of scheduling and not judged)
+		hmin := H + T
+		if T > kcache.EventBufsiz {
+			hmin = H + kcache.EventBufsiz
+		}
+		judge(hl.String()+" (reading)", hg, hmin)
+		if len(hg) > H+T {
+			r.V("C10", "healthy-subscriber-lost-events", "%s (reading) got %d events, %d were due", hl, len(hg), H+T)
+		}
+		// the cache of the stalled subscription follows the new filter all the same
+		rl, _ := g.root.Cache().List()
+		c, _ := cacheSnap(st.cc.Cache())
+		if w := lx.Accepted(rl); !c.Equal(w) {
+			r.V("C10", "stalled-subscription-cache-stale", "after the Refilter the cache of the stalled filtered subscription is %v, filter(root) is %v", c, w)
+		}
+		r.Add("published", int64(H+B))
+		g.stop(r, "C12")
+		r.Key(id)
+		r.Sample = map[string]interface{}{"desc": d, "held": H, "batch": T, "stalled_holds": len(got)}
+	}}
 }
